@@ -338,7 +338,7 @@ func forEachArtefact(b *c19base, family string, shard, shards int, fn func(a art
 				emit(fmt.Sprintf("rowdata[b%d]:=rowdata[b%d]", i, j), d)
 			}
 		}
-	case "framing", "framing-pairs", "framing-struct", "framing-struct-pairs":
+	case "framing", "framing-pairs", "framing-struct", "framing-struct-pairs", "framing-negfilter":
 		vals := func() []int64 {
 			sz := int64(n)
 			return []int64{-1, 0, 1, sz - 1, sz, sz + 1, math.MaxInt32, math.MaxInt64, math.MinInt64}
@@ -396,7 +396,53 @@ func forEachArtefact(b *c19base, family string, shard, shards int, fn func(a art
 			m.DataBlocks = append([]refmodel.BlockJSON(nil), b.meta.DataBlocks...)
 			return m
 		}
-		if family == "framing" || family == "framing-struct" {
+		if family == "framing-negfilter" {
+			// joint assignments: a negative file-filter size (which moves the end of the data
+			// area past the file) with one or two other extents enlarged accordingly
+			big := []int64{int64(n) + 1, int64(n) + 4096, 96 << 20, 1 << 40, 1 << 61}
+			others := append(append([]int64{}, vals...), big...)
+			for _, neg := range []int64{-1, -4096, -int64(n), -(96 << 20) - int64(n), -(1 << 41), -(1 << 62), math.MinInt64} {
+				for _, f := range fields {
+					if f.name == "fileFilterSize" {
+						continue
+					}
+					for _, v := range others {
+						m := clone()
+						m.FileFilterSectionSize = int(neg)
+						f.set(&m, v)
+						emit(fmt.Sprintf("fileFilterSize=%d,%s=%d", neg, f.name, v), b.reframe(m))
+					}
+				}
+			}
+			// shapes that need several fields at once
+			for _, neg := range []int64{-(96 << 20) - int64(n), -(1 << 41), -(1 << 62), math.MinInt64} {
+				for _, v1 := range big {
+					for _, v2 := range big {
+						if v2 > v1 {
+							continue
+						}
+						for bi := range b.meta.DataBlocks {
+							// the region and one block's filter section enlarged
+							m := clone()
+							m.FileFilterSectionSize = int(neg)
+							m.BlockFilterRegionSize = int(v1)
+							m.DataBlocks[bi].BloomFilterSize = int(v2)
+							emit(fmt.Sprintf("fileFilterSize=%d,regionSize=%d,b%d.filterSize=%d", neg, v1, bi, v2), b.reframe(m))
+							// the region moved past the file (sections with it) and one block's row data enlarged
+							m = clone()
+							m.FileFilterSectionSize = int(neg)
+							shift := int(v1) - m.BlockFilterRegionOffset
+							m.BlockFilterRegionOffset = int(v1)
+							for k := range m.DataBlocks {
+								m.DataBlocks[k].BloomFilterOffset += shift
+							}
+							m.DataBlocks[bi].RowDataSize = int(v2)
+							emit(fmt.Sprintf("fileFilterSize=%d,region+sections moved to %d,b%d.rowSize=%d", neg, v1, bi, v2), b.reframe(m))
+						}
+					}
+				}
+			}
+		} else if family == "framing" || family == "framing-struct" {
 			for _, f := range fields {
 				for _, v := range vals {
 					m := clone()
@@ -675,7 +721,7 @@ func init() {
 	modes["C19"] = ModeSpec{
 		Cases: func(tier string) []Case {
 			comps := []string{"snappy", "zstd", "none-nohash", "snappy-nohash", "zstd-nohash"}
-			fams := map[string]int{"bytes": 8, "windows": 8, "resize": 4, "framing": 1}
+			fams := map[string]int{"bytes": 8, "windows": 8, "resize": 4, "framing": 1, "framing-negfilter": 2}
 			if tier == "thorough" {
 				comps = []string{"none", "snappy", "zstd", "none-nohash", "snappy-nohash", "zstd-nohash"}
 				fams["framing-pairs"] = 8
